@@ -1077,12 +1077,13 @@ def oracle(line, out):
             elif st == "X":
                 o = False
             if o and sz < H2_SCRATCH_MIN:
-                return ("shared scratch buffer (srv->tmp_buf) is %d octets after step %s while an HTTP/2 connection is open: "
-                        "h2 asserts >= %d before HPACK coding (next HEADERS aborts the server)" % (sz, st, H2_SCRATCH_MIN))
+                return ("shared scratch buffer (srv->tmp_buf) smaller than %d octets after a step of kind %s while an HTTP/2 "
+                        "connection is open: h2 asserts that size before HPACK coding (next HEADERS aborts the server)"
+                        % (H2_SCRATCH_MIN, st[0]))
             if sz < prev:
-                return "shared scratch buffer shrunk from %d to %d octets at step %s" % (prev, sz, st)
+                return "shared scratch buffer shrunk at a step of kind %s" % st[0]
             if sz > 1 << 20:
-                return "shared scratch buffer grew to %d octets" % sz
+                return "shared scratch buffer grew beyond 1 MiB"
             prev = sz
         if int(m.group(2)) > sizes[-1]:
             return "scratch buffer used > size"
